@@ -139,6 +139,22 @@ func Gen(t *rapid.T) *Case {
 			c.Ops = append(c.Ops, o)
 		}
 	}
+	// in 1 of 8 histories: two or three Once handlers on one type, the first
+	// of which (slot 0, carrying a script) removes its own registration while
+	// it runs - a one-shot handler that deregisters itself - followed by a
+	// publish that fires them all
+	preScript := -1
+	if rapid.IntRange(0, 7).Draw(t, "onceSelfUnsub") == 0 {
+		pt := rapid.IntRange(0, nt-1).Draw(t, "preType")
+		preScript = pt
+		c.Ops = append(c.Ops, Op{K: "sub", T: pt, Slot: 0, Once: true})
+		g.subs[pt] = append(g.subs[pt], [2]int{0, 0})
+		for i, n := 0, rapid.IntRange(1, 2).Draw(t, "preOnce"); i < n; i++ {
+			c.Ops = append(c.Ops, Op{K: "sub", T: pt, Slot: 2 + i, Once: true, Async: rapid.IntRange(0, 3).Draw(t, "preAsync") == 0})
+			g.subs[pt] = append(g.subs[pt], [2]int{2 + i, 0})
+		}
+		c.Ops = append(c.Ops, Op{K: "pub", T: pt}, Op{K: "count", T: pt}, Op{K: "has", T: pt})
+	}
 	nops := rapid.IntRange(1, 40).Draw(t, "nops")
 	for i := 0; i < nops; i++ {
 		c.Ops = append(c.Ops, genOp(t, nt, g))
@@ -162,6 +178,11 @@ func Gen(t *rapid.T) *Case {
 	}
 	ns := rapid.IntRange(0, 3).Draw(t, "nscripts")
 	seen := map[[3]int]bool{}
+	if preScript >= 0 {
+		k := [3]int{preScript, 0, 0}
+		seen[k] = true
+		c.Scripts = append(c.Scripts, Script{T: k[0], Slot: 0, Ops: []Op{{K: "unsub", T: k[0], Slot: 0}}})
+	}
 	for i := 0; i < ns; i++ {
 		var k [3]int
 		if len(cands) > 0 && rapid.IntRange(0, 5).Draw(t, "attach") != 0 {
@@ -179,6 +200,10 @@ func Gen(t *rapid.T) *Case {
 			ng.subs[t2] = append([][2]int{}, l...)
 		}
 		n := rapid.IntRange(1, 4).Draw(t, "nsops")
+		if rapid.IntRange(0, 2).Draw(t, "unsubSelf") == 0 {
+			// the handler removes a registration of itself while it runs
+			s.Ops = append(s.Ops, Op{K: "unsub", T: k[0], Slot: k[1], Ctx: k[2] == 1})
+		}
 		for j := 0; j < n; j++ {
 			s.Ops = append(s.Ops, genOp(t, nt, ng))
 		}
